@@ -333,7 +333,9 @@ class Gen:
                 if y < 0.35:
                     cont.append(text_line(r.choice([2, 4, 3]), self.body_words(r.randint(1, 4), meta_p)))
                 elif y < 0.65:
-                    cont.append(bullet(lvl, self.body_words(r.randint(1, 4), meta_p)))
+                    # a plain bullet may sit on any level up to the one the property bullets use (a deeper one would be
+                    # swallowed by the value of a property bullet before it)
+                    cont.append(bullet(r.randint(1, lvl), self.body_words(r.randint(1, 4), meta_p)))
                 else:
                     cont.append(pbullet(lvl, r.choice(KEYS), [plain(r.choice(VALS + IDENTS)) for _ in range(r.randint(1, 3))]))
             # a property bullet is followed only by bullets of its own level (its value would swallow anything else)
